@@ -244,9 +244,18 @@ GRAPHS = {
         "@m.memento_function\ndef root(x):\n    _trace.append(('enter', 'root', x))\n"
         "    r = sum(mid.call_batch([{'x': 0}, {'x': 1}, {'x': 0}]))\n    _trace.append(('exit',)); return r\n",
         ["mid:0", "mid:1", "left:0", "right:1"]),
+    # sub-calls made through modifier clones: results ignored (single and batch), forced local
+    "modifier-subcalls": (
+        "@m.memento_function\ndef a(x):\n    _trace.append(('enter', 'a', x)); _trace.append(('exit',)); return 1\n"
+        "@m.memento_function\ndef b(x):\n    _trace.append(('enter', 'b', x)); _trace.append(('exit',)); return 2\n"
+        "@m.memento_function\ndef c(x):\n    _trace.append(('enter', 'c', x)); _trace.append(('exit',)); return 3\n"
+        "@m.memento_function\ndef root(x):\n    _trace.append(('enter', 'root', x))\n"
+        "    a.ignore_result()(x)\n    b.ignore_result().call_batch([{'x': x}, {'x': x + 1}])\n    r = c.force_local()(x + 5)\n"
+        "    _trace.append(('exit',)); return r\n",
+        ["a:2", "b:2", "b:3", "c:7"]),
 }
 GRAPH_NAMES = sorted(GRAPHS)
-ROOT_ARG = {"same-function-different-subgraphs": 5, "recursion": 2, "diamond": 2, "batch-fanout": 5}
+ROOT_ARG = {"same-function-different-subgraphs": 5, "recursion": 2, "diamond": 2, "batch-fanout": 5, "modifier-subcalls": 2}
 
 
 def _call_tree(events):
@@ -275,10 +284,11 @@ def _functions_below(node, known):
 @obligation(
     "C10.graphs",
     covers=("some-subcalls-memoized-before", "all-subcalls-memoized-before", "recursion", "diamond", "batch-fanout",
-            "same-function-different-subgraphs"),
+            "same-function-different-subgraphs", "modifier-subcalls"),
     split={"g": list(range(len(GRAPH_NAMES))), "store": [0, 1, 2]},
-    bounds="4 call graphs that are not trees (one function called with two arguments whose sub-graphs differ; recursion reaching a helper "
-           "only at the bottom; a diamond; a batch fan-out with repeated and distinct arguments) x every subset of the (up to 4) distinct "
+    bounds="5 call graphs (one function called with two arguments whose sub-graphs differ; recursion reaching a helper "
+           "only at the bottom; a diamond; a batch fan-out with repeated and distinct arguments; sub-calls made through ignore_result() "
+           "- single and batch - and force_local() clones) x every subset of the (up to 4) distinct "
            "sub-calls memoized beforehand x root invoked singly or as a batch x 3 stores; oracle = the call tree recorded by the bodies",
     variables="choice: premem mask, root batch bit (graph, store partitioned)",
     budget_s={"quick": 170, "thorough": 600},
@@ -316,7 +326,8 @@ def graphs(g: int, store: int, premem: int, root_batch: bool):
             exp_direct = {"same-function-different-subgraphs": [("mid", {"x": 0}), ("mid", {"x": 1})],
                           "recursion": [("root", {"x": 1})],
                           "diamond": [("a", {"x": 2}), ("b", {"x": 2})],
-                          "batch-fanout": [("mid", {"x": 0}), ("mid", {"x": 1}), ("mid", {"x": 0})]}[name]
+                          "batch-fanout": [("mid", {"x": 0}), ("mid", {"x": 1}), ("mid", {"x": 0})],
+                          "modifier-subcalls": [("a", {"x": 2}), ("b", {"x": 2}), ("b", {"x": 3}), ("c", {"x": 7})]}[name]
             check("cold-invocations-are-exactly-the-direct-calls-in-order", [(a, b) for (a, b, _h) in cold[0]] == exp_direct, (cold[0], exp_direct))
             got_names = sorted(q.split(":")[-1].split("#")[0] for q in cold[2])
             check("cold-dependencies-are-exactly-the-functions-reached", got_names == sorted(exp_deps_names), (got_names, sorted(exp_deps_names)))
